@@ -643,6 +643,53 @@ class DispatchSpec(Spec):
         return super().call_override(I, f, args, kwargs, star)
 
 
+class ManySpec(Spec):
+    """ingest_many: ingest() is abstract - it appends the record it is given to a ghost log"""
+
+    def call_override(self, I, f, args, kwargs, star):
+        fn = f.func if isinstance(f, O.HBound) else f
+        if isinstance(fn, O.HFunc) and fn.qual == "TraceAggregator.ingest":
+            st = I.st
+            rec = I.lift(args[-1])
+            st.set_list(self.LOG, st.list_sq(self.LOG).append(rec))
+            return NONE
+        return super().call_override(I, f, args, kwargs, star)
+
+
+def h_ingest_many(spec):
+    """ingest_many(records) hands every record to ingest() exactly once, in the order given, and does nothing else.  (That the argument is traversed in
+    a single pass - so that a streamed, one-shot iterable is aggregated like a list - is checked by the bounded tier, which feeds
+    generators and iterators.)"""
+    fn_info(spec, AGG, "TraceAggregator.ingest_many")
+
+    def body(I):
+        st = I.st
+        me, runs, launches = agg_self(I)
+        recs = in_list(I, "records")
+        n = z3.Select(st.h.llen, V.id(recs))
+        st.assume(n >= 0)
+        spec.LOG = in_list(I, "INGESTED")
+        st.assume(z3.Select(st.h.llen, V.id(spec.LOG)) == 0)
+        h0 = st.h.copy()
+        arr0 = z3.Select(h0.larr, V.id(recs))
+        j = z3.Int("j!many")
+
+        def inv(c):
+            L = c.st.list_sq(spec.LOG)
+            return z3.And(L.n == c.i, z3.ForAll([j], z3.Implies(z3.And(j >= 0, j < c.i), L.at(j) == z3.Select(arr0, j))))
+        spec.loops.clear()
+        spec.loop(AGG, "TraceAggregator.ingest_many", 1, LoopSpec(inv, modifies_heap=True, frame_except=lambda c: [spec.LOG]))
+        _, f = E.method_of(I, AGG, "TraceAggregator", "ingest_many")
+        out = E.execute(I, f, [me, recs])
+        if out[0] != "return":
+            spec.oblige(I, "ingest_many/never-raises-by-itself", z3.BoolVal(False))
+            return
+        L = st.list_sq(spec.LOG)
+        spec.oblige(I, "ingest_many/every-record-ingested-once-in-the-order-given", z3.And(L.n == n, z3.ForAll([j], z3.Implies(z3.And(j >= 0, j < n), L.at(j) == z3.Select(arr0, j)))))
+        spec.oblige(I, "ingest_many/nothing-else-changes", frame_eq(h0, st.h, 0, [spec.LOG]))
+    E.run_function(spec, "ingest_many", body)
+
+
 def h_commute(spec):
     """spec-level lemma: the update functions on the abstract view commute pairwise (producer precondition:
     two SER records address different (run, node) pairs; lifecycle records are idempotent flags / min / max)"""
@@ -781,9 +828,9 @@ def h_finalize_launch(spec):
     E.run_function(spec, "TraceAggregator.finalize_launch", body)
 
 
-TASKS = [h_coerce_int, h_expected_nodes, h_ingest_dispatch, h_commute, h_finalize_run2, h_ingest_lifecycle2, h_ingest_ser2, h_ingest_rs2, h_finalize_launch]
+TASKS = [h_coerce_int, h_expected_nodes, h_ingest_dispatch, h_ingest_many, h_commute, h_finalize_run2, h_ingest_lifecycle2, h_ingest_ser2, h_ingest_rs2, h_finalize_launch]
 HEAVY = []
-FACTORIES = {"h_finalize_run2": FinalizeSpec, "h_ingest_dispatch": DispatchSpec, "h_finalize_launch": LaunchSpec}
+FACTORIES = {"h_finalize_run2": FinalizeSpec, "h_ingest_dispatch": DispatchSpec, "h_finalize_launch": LaunchSpec, "h_ingest_many": ManySpec}
 
 
 def factory():
